@@ -6,6 +6,7 @@ uninterpreted commutative function; z3 decides, for every one of the n x n sub-p
 [row i, column j] is the centre term of the descendant tile (n+k, 2^k x + j, 2^k y + i) produced by k applications of
 _div4 — for symbolic corners and both diagonal orientations.  n = 1..16 (quick), the real 256 (thorough).
 """
+from vlib.core import soft_attr as core_u
 import math
 import time
 
@@ -214,7 +215,7 @@ def concrete_disagreement(n, increasing, csub=None, level=None):
 
 def check(run):
     mod, py = decy.load()
-    run.uses("toasty/_libtoasty.pyx:_subsample (decythonised)", "toasty/_libtoasty.pyx:_mid (uninterpreted)", tt._div4, tt.toast_tile_get_coords)
+    run.uses("toasty/_libtoasty.pyx:_subsample (decythonised)", "toasty/_libtoasty.pyx:_mid (uninterpreted)", core_u(tt, "_div4"), tt.toast_tile_get_coords)
     val = decy.validate(mod, seed=run.seed)
     ok = val["mid_max_abs_diff"] < 1e-12 and val["subsample16_max_abs_diff"] < 1e-12 and val["bbox_disagreements"] == 0
     run.ob("decythonised-module-matches-compiled-extension", "confirmed" if ok else "inconclusive", "E4:translation-validation",
